@@ -106,7 +106,7 @@ pub fn rule_of(name: &str, e: &Expr) -> Rule {
 // rule expression generators
 
 /// 0 = succeeds; 1.. = fails with a distinct error class each
-pub const RULE_KINDS: usize = 14;
+pub const RULE_KINDS: usize = 15;
 
 pub fn rule_of_kind(k: usize, salt: i128) -> Expr {
     let i = |x: i128| Expr::value(x);
@@ -124,6 +124,7 @@ pub fn rule_of_kind(k: usize, salt: i128) -> Expr {
         10 => Expr::dec(Expr::value(1i128 << 96)),                                   // cast out of range
         11 => Expr::add(Expr::Value(pool::dt(pool::LAST_TS, 0)), Expr::duration(i(salt.max(1)))), // date out of range
         12 => Expr::int(Expr::Value(Value::Float(1e300))),                           // float not representable
+        13 => Expr::sub(Expr::second(i(-(i64::MAX as i128) / 1000)), Expr::second(i(i64::MAX as i128 / 1000))), // duration out of range
         _ => Expr::Vec(vec![Expr::func("fa", Expr::reff("vi")), Expr::func("fb", i(salt)), Expr::symbol("sa")]),
     }
 }
@@ -178,6 +179,17 @@ pub fn similar_args() -> Vec<Value> {
         Value::Vec(vec![Value::String("a".into()), Value::String("b".into())]),
         Value::Vec(vec![Value::String("a\", \"b".into())]),
         Value::String("none".into()),
+        // the same leaves, grouped differently
+        Value::Vec(vec![Value::Vec(vec![Value::Int(1)]), Value::Vec(vec![Value::Int(2)])]),
+        Value::Vec(vec![Value::Vec(vec![Value::Int(1), Value::Vec(vec![Value::Int(2)])])]),
+        Value::Vec(vec![Value::Vec(vec![]), Value::Vec(vec![Value::Int(1)])]),
+        Value::Vec(vec![Value::Vec(vec![Value::Vec(vec![Value::Int(1)])])]),
+        pool::map(&[("a", pool::map(&[("b", Value::Int(1))]))]),
+        pool::map(&[("a", pool::map(&[])), ("b", Value::Int(1))]),
+        // long text (keys that are shortened or hashed must stay exact): multi-byte characters at every byte offset
+        Value::String(format!("{}{}", "x".repeat(1), "é".repeat(140))),
+        Value::String(format!("{}{}", "x".repeat(2), "é".repeat(140))),
+        Value::String(format!("{}{}z", "x".repeat(2), "é".repeat(140))),
     ]
 }
 
